@@ -661,7 +661,10 @@ func (e *streamExec) step(s *SStep) {
 		}
 		kinds := s.Kinds
 		if len(kinds) == 0 {
-			kinds = []string{"err", "err_n", "eof"}
+			kinds = []string{"err", "err_n", "eof", "err_weof"}
+			if len(e.ref) < 3000 {
+				kinds = append(kinds, "err_wueof")
+			}
 		}
 		for k := s.Lo; k <= hi; k++ {
 			for _, kind := range kinds {
